@@ -1394,6 +1394,20 @@ fn c05(rng: &mut Rng, thorough: bool, _hints: &[Vec<String>], rep: &mut Report) 
         || <i32 as Coefficient>::NEG_ONE.wrapping_mul(2) != i32::MIN || <i64 as Coefficient>::NEG_ONE.wrapping_mul(2) != i64::MIN {
         l.violation("neg-two", "-2 is exactly representable", "NEG_ONE * 2".into(), "T::MIN".into(), "other".into());
     }
+    // exactly representable values must be reproduced exactly, in every width (incl. the 2^52..2^53 binade of i64)
+    for _ in 0..(n / 10) {
+        let m = ((1i64 << 52) + rng.below(1 << 52) as i64) * if rng.chance(1, 2) { -1 } else { 1 };
+        let v = m as f64 / 4611686018427387904.0;
+        let q = <i64 as Coefficient>::quantize(v);
+        if q != m {
+            l.violation("quantize", "quantising a real number gives the nearest coefficient (exactly representable value)", format!("<i64>::quantize({:e}) = quantize({} / 2^62)", v, m), m.to_string(), q.to_string());
+        }
+        let m16 = rng.range(-32768, 32767);
+        if <i16 as Coefficient>::quantize(m16 as f64 / 16384.0) as i64 != m16 {
+            l.violation("quantize", "quantising a real number gives the nearest coefficient (exactly representable value)", format!("<i16>::quantize({} / 2^14)", m16), m16.to_string(), "other".into());
+        }
+        l.count += 2;
+    }
     for _ in 0..(n / 10) {
         let v = (rng.next() as i64 as f64) / (i64::MAX as f64) * 1.99;
         let q16 = <i16 as Coefficient>::quantize(v);
